@@ -11,10 +11,15 @@ HPools == { e \o v : e \in Extra, v \in ValPools } \cup { v \o e : e \in {<< Poo
 XPools == { <<>>, << Pool("Validators pool", "Validators", SplitSum, 0, 0) >>, << Pool("x", "Validators", 10, 2, 1) >> }
 VTypeSets == { {"Validators", "Advisors"}, {"Advisors"} }
 TraceSets == { {}, {"g1", "f1", "o1"}, {"g1"} }
-CV(ov, s, e) == [kind |-> "cv", ov |-> ov, start |-> s, end |-> e]
-AcctSets == { [a \in {"s1", "s2"} |-> [kind |-> "none", ov |-> 0, start |-> 0, end |-> 0]],
-              [a \in {"s1", "s2"} |-> IF a = "s1" THEN CV(1000, 10, 375) ELSE [kind |-> "base", ov |-> 0, start |-> 0, end |-> 0]],
-              [a \in {"s1", "s2"} |-> IF a = "s1" THEN CV(5, 0, 100) ELSE CV(77, 30, 30)] }
+\* continuous vesting account: original vesting, schedule, delegation counters (delegated vesting / delegated free), sequence number
+CVD(ov, s, e, dv, df, seq) == [kind |-> "cv", ov |-> ov, start |-> s, end |-> e, dv |-> dv, df |-> df, seq |-> seq]
+CV(ov, s, e) == CVD(ov, s, e, 0, 0, 0)
+NoA(k) == [kind |-> k, ov |-> 0, start |-> 0, end |-> 0, dv |-> 0, df |-> 0, seq |-> 0]
+AcctSets == { [a \in {"s1", "s2"} |-> NoA("none")],
+              [a \in {"s1", "s2"} |-> IF a = "s1" THEN CV(1000, 10, 375) ELSE NoA("base")],
+              [a \in {"s1", "s2"} |-> IF a = "s1" THEN CV(5, 0, 100) ELSE CV(77, 30, 30)],
+              \* accounts that staked and signed before the upgrade
+              [a \in {"s1", "s2"} |-> IF a = "s1" THEN CVD(1000, 10, 375, 600, 0, 4) ELSE CVD(80, 0, 200, 40, 20, 1)] }
 \* legacy minter / distributor parameters: a few shapes (kinds NO / LIN / EXP), ids of the harness table
 MinterSets == {1, 2, 3}
 DistSets == {1, 2}
